@@ -4,6 +4,7 @@
 -/
 import AmiscModel.Interp
 import AmiscProofs.TensorDeriv
+import AmiscProofs.SparseExact
 
 namespace Amisc.C05
 
@@ -96,5 +97,24 @@ theorem term_linear_in_data (tol : Q) (st : LState) (x : List Q) (rows r1 r2 : L
     (h : ∀ n, n < rows.length → (rows.getD n []).getD o 0 = a * (r1.getD n []).getD o 0 + b * (r2.getD n []).getD o 0) :
     (predictT tol st rows x).getD o 0 = a * (predictT tol st r1 x).getD o 0 + b * (predictT tol st r2 x).getD o 0 :=
   tensorSum_lincomb _ _ rows r1 r2 a b o ho ho1 ho2 hl1 hl2 h
+
+
+open Amisc.SE in
+/-- **the whole surrogate passes through its training points**: for a duplicate-free downward-closed index set with
+    inclusion–exclusion weights and nested grids, the surrogate built from the unit pulse at node numbers `p` takes the
+    value 1 at that training point and 0 at every other point of the grid of any member `l` of the set. By linearity in the
+    data (`term_linear_in_data`, and `miscSum` is a weighted sum) every surrogate therefore returns, at a training point it
+    uses, the training value stored there — in particular a single-fidelity surrogate passes through all of its training
+    data. -/
+theorem surrogate_interpolates_unit_pulses {na d : ℕ} (S : List Idx) (hnd : S.Nodup)
+    (hlen : ∀ s ∈ S, s.length = na + d) (hdown : ∀ s ∈ S, ∀ j, Idx.le j s = true → j ∈ S)
+    (nodes : ℕ → List Q) (gs : ℕ → ℕ) (hgs : Monotone gs) (hnodes : ∀ k, k < d → (nodes k).Nodup)
+    (st : Idx → LState) (hN : Nested na d nodes gs st S) (p a : ℕ → ℕ) (l : Idx) (hl : l ∈ S)
+    (ha : ∀ k, k < d → a k < gs (Idx.nth l (na + k)))
+    (hlong : ∀ k, k < d → gs (Idx.nth l (na + k)) ≤ (nodes k).length)
+    (x : List Q) (hx : x.length = d) (hxa : ∀ k, k < d → x.getD k 0 = (nodes k).getD (a k) 0) :
+    (miscSum (S.map fun i => (IE S i, predictT 0 (st i) (prodRows (pulse p) ((st i).grids.map List.length)) x))).getD 0 0 =
+      ∏ k : Fin d, (if p k = a k then (1 : ℚ) else 0) :=
+  misc_interpolates_pulse S hnd hlen hdown nodes gs hgs hnodes st hN p a l hl ha hlong x hx hxa
 
 end Amisc.C05
